@@ -134,12 +134,26 @@ impl Value for GValRef<'_> {
                     GFlags::HighRes => HighStorageResolutionCtor::construct(),
                     GFlags::NoMetric => NoMetricCtor::construct(),
                 };
-                writer.metric(
-                    obs.iter().copied(),
-                    *unit,
-                    dims.iter().map(|(k, v)| (k.as_str(), v.as_str())),
-                    f,
-                )
+                // Values in the wild hand over their observations and dimensions through all kinds of
+                // iterators; alternate (deterministically) between exact-size iterators and lazily
+                // filtered ones whose size_hint lower bound is 0, so that nothing downstream can rely
+                // on size hints.
+                let lazy = (obs.len() + dims.len()) % 2 == 1;
+                if lazy {
+                    writer.metric(
+                        obs.iter().copied().filter(|_| true),
+                        *unit,
+                        dims.iter().map(|(k, v)| (k.as_str(), v.as_str())).filter(|_| true),
+                        f,
+                    )
+                } else {
+                    writer.metric(
+                        obs.iter().copied(),
+                        *unit,
+                        dims.iter().map(|(k, v)| (k.as_str(), v.as_str())),
+                        f,
+                    )
+                }
             }
             GVal::Error(m) => writer.error(ValidationError::invalid(m.clone())),
             GVal::Nothing => {}
